@@ -36,7 +36,7 @@ def plan(tier, seed):
     nsh = 16
     if tier == 'quick':
         specs = [{'kind': 'random', 'count': 14} for _ in range(nsh)]
-        specs.append({'kind': 'errors', 'count': 30})
+        specs.append({'kind': 'errors', 'count': 54})
         return specs
     # all 4^6 assignments, dealt round-robin to shards
     allx = list(itertools.product(range(4), repeat=6))
@@ -130,7 +130,7 @@ def failing_build(rng, root):
     shutil.rmtree(d, ignore_errors=True)
 
 
-def run_build(ctx, rng, pool, root, assign, out_state, out_fmt, lua_from_file):
+def run_build(ctx, rng, pool, root, assign, out_state, out_fmt, lua_from_file, reuse_namespace=False):
     from pico8 import tool
     from pico8.game import file as p8file
     if rng.random() < 0.25:
@@ -189,7 +189,7 @@ def run_build(ctx, rng, pool, root, assign, out_state, out_fmt, lua_from_file):
         ctx.feature('%s:%s' % (sec, desc[sec]))
     ctx.feature('out_state:' + (out_state if exists else 'absent'))
     ctx.feature('out_fmt:' + out_fmt)
-    relative = rng.random() < 0.3
+    relative = rng.random() < 0.3 and not reuse_namespace
     run_argv = argv
     old_cwd = os.getcwd()
     if relative:
@@ -202,7 +202,26 @@ def run_build(ctx, rng, pool, root, assign, out_state, out_fmt, lua_from_file):
             ctx.feature('failed_build_before')
     try:
         try:
-            rcode = tool.main(run_argv)
+            if reuse_namespace:
+                # HISTORY (library use, e.g. a rebuild loop): ONE parsed arguments object serves two builds.  The first runs while
+                # OUT does not exist; OUT is then put into the state under test and the same object is passed to do_build again.
+                ns = tool._get_argparser().parse_args(args=run_argv)
+                saved = open(out, 'rb').read() if exists else None
+                if exists:
+                    os.remove(out)
+                first = ns.func(ns)
+                if first:
+                    ctx.violation('first build with the arguments object returned %r' % first, case)
+                    return
+                os.remove(out)
+                if exists:
+                    with open(out, 'wb') as fh:
+                        fh.write(saved)
+                ctx.feature('arguments_object_reused')
+                case['history'] = 'the same parsed arguments object was first used for a build while OUT did not exist'
+                rcode = ns.func(ns)
+            else:
+                rcode = tool.main(run_argv)
         except BaseException as e:
             ctx.violation('build raised %r for %s' % (e, case), case)
             return
@@ -287,15 +306,23 @@ def run_build(ctx, rng, pool, root, assign, out_state, out_fmt, lua_from_file):
         ctx.violation('empty default music has a non-silent channel', case)
 
 
+ERROR_KINDS = ('conflict', 'missing', 'wrongext', 'lua_for_data', 'bad_out_ext', 'empty_name', 'empty_name_conflict',
+               'source_is_absent_out', 'source_is_out_conflict')
+
+
 def run_error(ctx, rng, pool, root, index=0):
     from pico8 import tool
-    kind = ('conflict', 'missing', 'wrongext', 'lua_for_data', 'bad_out_ext')[index % 5]
+    kind = ERROR_KINDS[index % len(ERROR_KINDS)]
     out_fmt = rng.choice(('p8', 'png'))
     out = os.path.join(root, 'eout.p8' if out_fmt == 'p8' else 'eout.p8.png')
     for f in (os.path.join(root, 'eout.p8'), os.path.join(root, 'eout.p8.png'), os.path.join(root, 'eout.txt')):
         if os.path.exists(f):
             os.remove(f)
     exists = rng.random() < 0.6
+    if kind == 'source_is_absent_out':
+        exists = False
+    elif kind == 'source_is_out_conflict':
+        exists = True
     before = None
     if exists:
         regions, _ = carts.random_regions(rng, 'uniform')
@@ -303,7 +330,7 @@ def run_error(ctx, rng, pool, root, index=0):
         with open(out, 'wb') as fh:
             fh.write(data)
         before = data
-    sec = SECTIONS[(index // 5) % 6]
+    sec = SECTIONS[(index // len(ERROR_KINDS)) % 6]
     good = rng.choice(pool.items['p8'])['path']
     argv = ['-q', 'build', out]
     # some valid arguments first, so that an implementation that writes early is caught
@@ -321,6 +348,18 @@ def run_error(ctx, rng, pool, root, index=0):
     elif kind == 'lua_for_data':
         sec = rng.choice(SECTIONS[1:])
         argv += ['--' + sec, rng.choice(pool.items['lua'])['path']]
+    elif kind == 'empty_name':
+        # a source given as the empty string names no file
+        argv += ['--%s=' % sec] if index % 2 else ['--' + sec, '']
+    elif kind == 'empty_name_conflict':
+        argv += ['--%s=' % sec, '--empty-' + sec]
+    elif kind in ('source_is_absent_out', 'source_is_out_conflict'):
+        # OUT itself named as a source, under several spellings of its path
+        os.makedirs(os.path.join(root, 'sub'), exist_ok=True)
+        spell = (out, os.path.join(root, '.', os.path.basename(out)), os.path.join(root, 'sub', '..', os.path.basename(out)))[(index // 3) % 3]
+        argv += ['--' + sec, spell]
+        if kind == 'source_is_out_conflict':
+            argv += ['--empty-' + sec]
     else:
         out = os.path.join(root, 'eout.txt')
         argv[2] = out
@@ -358,13 +397,14 @@ def run_shard(spec, ctx):
         if spec['kind'] == 'errors':
             for k in range(spec['count']):
                 run_error(ctx, rng, pool, root, k)
-            ctx.sample({'error_classes': ['conflict', 'missing', 'wrongext', 'lua_for_data', 'bad_out_ext']})
+            ctx.sample({'error_classes': list(ERROR_KINDS)})
             return
         if spec['kind'] == 'random':
             # pairwise-ish: random assignments, every choice equally likely per section
             for i in range(spec['count']):
                 assign = [rng.randrange(4) for _ in SECTIONS]
-                run_build(ctx, rng, pool, root, assign, rng.choice(OUT_STATES), rng.choice(('p8', 'png')), rng.random() < 0.4)
+                run_build(ctx, rng, pool, root, assign, rng.choice(OUT_STATES), rng.choice(('p8', 'png')), rng.random() < 0.4,
+                          reuse_namespace=(i % 4 == 3))
         else:
             allx = list(itertools.product(range(4), repeat=6))
             combos = [(s, f) for s in OUT_STATES for f in ('p8', 'png')]
@@ -450,11 +490,13 @@ def gates(m, tier):
     for s in ('p8', 'png'):
         if f.get('out_fmt:' + s, 0) < 10:
             missed.append('OUT format %s: %d' % (s, f.get('out_fmt:' + s, 0)))
-    for k in ('conflict', 'missing', 'wrongext', 'lua_for_data', 'bad_out_ext'):
+    for k in ERROR_KINDS:
         if f.get('error:' + k, 0) < 2:
             missed.append('error class %s: %d' % (k, f.get('error:' + k, 0)))
     if tier == 'thorough' and f.get('matrix_assignments', 0) != 4096:
         missed.append('matrix assignments run: %d of 4096' % f.get('matrix_assignments', 0))
+    if f.get('arguments_object_reused', 0) < 20:
+        missed.append('builds with a reused arguments object: %d' % f.get('arguments_object_reused', 0))
     if f.get('relative_paths', 0) < 20 or f.get('failed_build_before', 0) < 5:
         missed.append('relative-path builds %d, after a failed build %d' % (f.get('relative_paths', 0), f.get('failed_build_before', 0)))
     if mon.get('sections_compared', 0) < 600:
